@@ -206,7 +206,8 @@ def _units_theta(B, units, n_ids):
 
 def case_pop(B, cfg):
     units, n_ids, ns = cfg['units'], cfg.get('n_ids', 2), cfg['n_samples']
-    m = hier.make_population(units, n_ids, cfg.get('bare', False))
+    m = hier.make_population(units, n_ids, cfg.get('bare', False),
+                             cfg.get('ctor_ids'))
     theta, per_dim = _units_theta(B, units, n_ids)
     n_cov = sum(u['cov'] for u in units)
     covs = [B.var('chi%d' % c) for c in range(n_cov)] if n_cov else None
@@ -273,10 +274,16 @@ def case_pop(B, cfg):
             if k == 'hetero':
                 rows = hetero_rows(per_dim, units, d, n_ids)
                 hit = False
-                for r in rows:
+                for ri, r in enumerate(rows):
                     if s.t is Sym.lift(r).t:
                         hit = True
+                        # support of the sampler = all modelled individuals
+                        B.cover('%s, sample %d: the individual drawn'
+                                % (label, i), ri, expect=range(n_ids))
                 B.fact('%s: sample is one individual\'s value' % label, hit)
+                B.fact('%s: individuals are drawn with equal weights' % label,
+                       all(w is None for w in rng.choice_weights),
+                       repr(rng.choice_weights))
                 y[d] = s
                 continue
             if k == 'truncgauss':
@@ -464,6 +471,19 @@ def jobs(tier):
         out.append(('pop', 'case_pop', dict(
             units=[hier.unit(a, 1), hier.unit(b, 2 if not q else 1)],
             n_samples=2, n_ids=2), {'max_paths': 600, 'replay_candidates': 1, 'facts_final': True}))
+    # heterogeneous model resized after construction (set_n_ids), bare and
+    # inside a composition: every individual stays in the sampler's support
+    for n_ids, ctor in ((3, 1), (2, 1), (3, 2), (2, 3)) if q else \
+            ((3, 1), (2, 1), (3, 2), (2, 3), (4, 1), (4, 2), (1, 3)):
+        for nd in (1, 2):
+            out.append(('pop', 'case_pop', dict(
+                units=[hier.unit('hetero', nd)], n_samples=1 + (nd % 2),
+                bare=True, n_ids=n_ids, ctor_ids=ctor),
+                {'max_paths': 600, 'facts_final': True}))
+        out.append(('pop', 'case_pop', dict(
+            units=[hier.unit('gaussian', 1), hier.unit('hetero', 1)],
+            n_samples=2, n_ids=n_ids, ctor_ids=ctor),
+            {'max_paths': 600, 'facts_final': True}))
     covk = ['gaussian', 'lognormal', 'gaussian_nc', 'pooled', 'truncgauss',
             'lognormal_nc']
     for k in covk:
